@@ -62,15 +62,9 @@ func c02(r *rep.Run) {
 	}
 	progs = withAliases(progs, aliasMax)
 	progs = withMerged(progs, 5)
+	progs = append(progs, loneLeafPrograms()...)
 	r.Cov["programs_incl_alias_spellings"] = len(progs)
 	hs := harnesses(r.Workers)
-	for _, h := range hs {
-		// the caller's config also registers operators under every builtin
-		// name and alias: the builtin meaning must win in every subset alike
-		for name := range ref.Alias {
-			h.Register(name, func([]interface{}) (interface{}, error) { return "SHADOWED-BUILTIN", nil })
-		}
-	}
 	base := optMatrix(0, 1)
 	for _, o := range optMatrix(0) {
 		o.Undef = 1 // every variable resolved by name (undefined-variable mode)
@@ -110,6 +104,7 @@ func c02(r *rep.Run) {
 			for _, st := range styles {
 				o := drive.FromBits(b)
 				o.Directive = st
+				o.Infix = p.Infix
 				cfg := h.NewConfig(p.Vars, o)
 				before := snapshotOptions(cfg)
 				e, err := h.Compile(cfg, drive.Source(p.Src, o), 0)
